@@ -311,6 +311,7 @@ def c08(run):
     quick = run.tier == "quick"
     # (a) every fault site of every call of the C13 menu: no identifier left locked, a follow-up call returns
     checks_cf.fault_scenarios(run, "menus13.json", ["no_deadlock_no_leak", "C13_no_lock_left"], only_locks=True)
+    checks_cf.source_read_faults(run)
     # (b) schedules of the C07 / C12 scenarios: every call returns, nothing stays locked
     sched_scenarios(run, "menus07.json", "pairs", ["no_deadlock_fault_free"], n_quick=10, rand_quick=2, rand_thorough=6, oracle="locks", witnesses=not quick)
     sched_scenarios(run, "menus12.json", "pairs", ["no_deadlock_fault_free"], n_quick=8, rand_quick=2, rand_thorough=6, oracle="locks", witnesses=False)
